@@ -793,7 +793,7 @@ class Engine:
              (a) every element's key is a key of d;
              (b) every key k of d comes from some element w(k) of the source: key(w(k)) == k and d[k] == value(w(k))
            (which element wins when two share a key is left open - sound for 'the last one wins')"""
-        if len(n.generators) != 1 or n.generators[0].ifs or not isinstance(n.generators[0].target, ast.Name):
+        if len(n.generators) != 1 or not isinstance(n.generators[0].target, ast.Name):
             raise Unsupported("dict comprehension shape (line %d)" % n.lineno)
         g = n.generators[0]
         for st1, it in self.ev(g.iter, st):
@@ -815,7 +815,21 @@ class Engine:
             if et.is_ref:
                 probe.assume(z3.And(e.t > 0, e.t < probe.alloc))
             probe.env[g.target.id] = e
-            outs = list(self.ev_list([n.key, n.value], probe))
+            # the conditions first: each a pure single-path expression, taken by its truth value
+            conds = []
+            for cnd in g.ifs:
+                pf = probe.fork()
+                npc0 = len(pf.pc)
+                co = list(self.ev(cnd, pf))
+                if not co or any(isinstance(v_, Raised) for _, v_ in co):
+                    raise Unsupported("dict comprehension condition may raise (line %d)" % n.lineno)
+                # and / or split the evaluation into paths: the condition holds when some path is taken and its value is true
+                conds.append(z3.Or([z3.And(list(s_.pc[npc0:]) + [ops.truthy(s_, v_)]) for s_, v_ in co]))
+            cond_e = z3.And(conds) if conds else z3.BoolVal(True)
+            probe2 = probe.fork()
+            if conds:
+                probe2.assume(cond_e)
+            outs = list(self.ev_list([n.key, n.value], probe2))
             if len(outs) != 1 or isinstance(outs[0][1], Raised):
                 raise Unsupported("dict comprehension key/value is not a single pure path (line %d)" % n.lineno)
             kv, vv = outs[0][1]
@@ -830,12 +844,12 @@ class Engine:
             x = z3.Const("x!dc%d" % tag, sort_of(et))
             k = z3.Const("k!dc%d" % tag, sort_of(kt))
             okx = z3.And(x > 0, x < st1.alloc) if et.is_ref else z3.BoolVal(True)
-            st1.assume(z3.ForAll([x], z3.Implies(z3.And(okx, member(x)), z3.Select(D, z3.substitute(kv.t, (e.t, x)))),
+            st1.assume(z3.ForAll([x], z3.Implies(z3.And(okx, member(x), z3.substitute(cond_e, (e.t, x))), z3.Select(D, z3.substitute(kv.t, (e.t, x)))),
                                  patterns=[member(x)]))
             wk = w(k)
             okw = z3.And(wk > 0, wk < st1.alloc) if et.is_ref else z3.BoolVal(True)
             st1.assume(z3.ForAll([k], z3.Implies(z3.Select(D, k),
-                                                 z3.And(okw, member(wk), z3.substitute(kv.t, (e.t, wk)) == k,
+                                                 z3.And(okw, member(wk), z3.substitute(cond_e, (e.t, wk)), z3.substitute(kv.t, (e.t, wk)) == k,
                                                         z3.Select(Vv, k) == z3.substitute(vv.t, (e.t, wk)))),
                                  patterns=[z3.Select(D, k)]))
             st1.dict_set(d, D, Vv)
